@@ -48,6 +48,13 @@ def reps(tasks):
     return [out[k] for k in (G.GA, G.GB, G.GC, G.GD, G.GE) if k in out]
 
 
+def hint_inputs():
+    """Types whose annotations are equal as objects but spelled differently, in both orders and nested."""
+    f, g = G.GF(a=1.5), G.GG(b=2.5)
+    fa, ga = G.GF(dep=G.GA(x=1)), G.GG(dep=[G.GA(x=1), G.GA(x=2)])
+    return [[f], [g], [f, g], [g, f], [fa, ga], [ga, fa], [G.GD(p=f)], [G.GD(p=[g, f])], [G.GB(one=g, many=[f, fa])]]
+
+
 def inputs(tier: str):
     l0 = [G.GA(x=1)]
     v0 = values(l0, l0)
@@ -56,7 +63,7 @@ def inputs(tier: str):
     v1_full = values(s1, l1)
     v1_small = values(s1, s1)
     l2 = level_tasks(v1_full, v1_small)
-    ins = [[t] for t in l1] + [[t] for t in l2]
+    ins = hint_inputs() + [[t] for t in l1] + [[t] for t in l2]
     gb1 = [t for t in l1 if type(t) is G.GB]
     ins += [[a, b] for a in gb1 for b in gb1 if a is not b][:: (1 if tier != 'quick' else 3)]
     if tier != 'quick':
@@ -169,6 +176,13 @@ def check_one(tasks):
         extra = [n for n in names if n not in G.FIELDS[cls]]
         if extra:
             out.append(('param-extra', f'type {tname}: unknown members {extra}'))
+        for m in c['members']:
+            if m.startswith('run()'):
+                continue
+            ttext, _, fname = m.rpartition(' ')
+            want_t = G.FIELD_TYPES[cls].get(fname)
+            if want_t is not None and ttext != want_t:
+                out.append(('param-type', f'type {tname}: parameter {fname} is shown as {ttext!r}, its annotation reads {want_t!r}'))
         runs = [m for m in c['members'] if m.startswith('run()')]
         want = 'run()' + (f' {G.RUN_RETURN[cls]}' if G.RUN_RETURN[cls] else '')
         if runs != [want]:
